@@ -8,6 +8,8 @@ import MpsVerif.Drv.AFifo
 import MpsVerif.Drv.Eager
 import MpsVerif.Drv.Pipeline
 import MpsVerif.Drv.Tee
+import MpsVerif.Drv.Refcount
+import MpsVerif.Drv.ProxyCall
 
 def main (args : List String) : IO UInt32 := do
   match args with
@@ -23,4 +25,6 @@ def main (args : List String) : IO UInt32 := do
   | ["pipeline"] => Pipeline.Drv.main; return 0
   | ["tee"] => Tee.Drv.main; return 0
   | ["tee-legacy"] => Tee.Drv.mainLegacy; return 0
+  | ["refcount"] => Refcount.Drv.main; return 0
+  | ["proxycall"] => ProxyCall.Drv.main; return 0
   | _ => IO.eprintln s!"usage: drv <model>   (models: fifo)"; return 2
